@@ -61,13 +61,31 @@ def expr_nodes(e, X, acc):
 
 def _observe(case):
     from miasmx.expression import expression as X
-    t = case['e']
+    t = case.get('e')
+    produced = None
+    if case.get('via') == 'simp':
+        # the object under test is what the simplifier RETURNS for case['src'] (it may have been edited in place on the way);
+        # e is its structure, and every law is checked between that object and independently built equal expressions
+        from miasmx.expression.expression_helper import expr_simp
+        try:
+            produced = expr_simp(EJ.from_json(case['src']))
+            t = EJ.to_json(produced)
+        except Exception as x:
+            return {'id': case['id'], 'kind': 'skip', 'e': NONE, 'base': {}, 'src': case['src']}
+        if case['kind'] == 'map':
+            subs = [x for x in all_subtrees(t) if x['k'] != 'aff' and x.get('w') in (1, 8, 16, 32, 64)]
+            if not subs:
+                return {'id': case['id'], 'kind': 'skip', 'e': NONE, 'base': {}, 'src': case['src']}
+            key = subs[case['id'] % len(subs)]
+            case = dict(case, map=[[key, {'k': 'id', 'w': key['w'], 'n': 'r1_%d' % key['w']}]])
     rec = {'id': case['id'], 'kind': case['kind'], 'e': t}
+    if produced is not None:
+        rec['src'] = case['src']
     b = {'eqself': 0, 'eqfresh': 0, 'hashfresh': 0, 'copy': NONE, 'copyeq': 0, 'shared': 0, 'visit': NONE, 'visiteq': 0,
          'canon': NONE, 'exc': ''}
     step = 'build'
     try:
-        e1, e2 = EJ.from_json(t), EJ.from_json(t)
+        e1, e2 = (produced if produced is not None else EJ.from_json(t)), EJ.from_json(t)
         step = 'eq'
         b['eqself'], b['eqfresh'] = int(bool(e1 == e1)), int(bool(e1 == e2) and not bool(e1 != e2))
         step = 'hash'
@@ -105,7 +123,7 @@ def _observe(case):
         mp = case['map']
         res = NONE
         try:
-            e = EJ.from_json(t)
+            e = produced if produced is not None else EJ.from_json(t)
             d = {}
             for k, img in mp:
                 d[EJ.from_json(k)] = EJ.from_json(img)
@@ -114,6 +132,14 @@ def _observe(case):
             rec['map_exc'] = irlib.exc_key(x)
         rec['map'] = {'map': mp, 'res': res}
     return rec
+
+
+def all_subtrees(t, acc=None):
+    acc = [] if acc is None else acc
+    acc.append(t)
+    for x in t.get('a', []) + t.get('g', []):
+        all_subtrees(x, acc)
+    return acc
 
 
 def envs_for(rec, rnd, n):
@@ -168,7 +194,14 @@ def run(tier, chk):
     else:
         items = [x for x in items if x['kind'] == 'plain' or rnd.random() < 0.5]
     cases = [dict(x, id=i) for i, x in enumerate(items)]
-    recs = irlib.pmap(_observe, cases)
+    # expressions produced by the simplifier (adjacent slices merged, constants folded, operands reordered ...) are IR expressions too
+    from . import c05
+    srcs = c05.sharing_trees(rnd, 600 if quick else 6000) + c05.loose_compose_trees(rnd, 300 if quick else 3000) + c05.random_trees(rnd, 600 if quick else 6000)
+    for t in srcs:
+        cases.append({'id': len(cases), 'kind': 'plain', 'via': 'simp', 'src': t})
+        cases.append({'id': len(cases), 'kind': 'map', 'via': 'simp', 'src': t})
+    recs = [r for r in irlib.pmap(_observe, cases) if r['kind'] != 'skip']
+    chk.cov['simplifier_produced_objects'] = sum(1 for r in recs if 'src' in r)
     for r in recs:
         r['envs'] = envs_for(r, rnd, 6)
     chk.cov['evaluations'] = len(recs)
@@ -185,6 +218,10 @@ def run(tier, chk):
     for v in verdicts:
         r = byid[v['id']]
         f = v['v'][0]
+        if f['clause'] == 'input.illtyped' and 'src' in r:
+            # an ill-typed simplifier output is C05's subject (known finding F-C05-nested-rotate-mixed); C15 speaks about well-typed expressions
+            chk.cov['produced_objects_skipped_illtyped'] = chk.cov.get('produced_objects_skipped_illtyped', 0) + 1
+            continue
         chk.violation(keyof(r, f), {'case': {k: r[k] for k in r if k != 'envs'}, 'e_text': EJ.show(r['e']), 'verdict': f,
                                     'canon_text': EJ.show(r['base']['canon']) if r['base']['canon'].get('k') not in (None, 'none') else None})
 
@@ -214,10 +251,12 @@ def negative_control(chk):
 def replay(path, chk):
     rp = json.load(open(path))
     c = rp['detail']['case']
-    case = {'id': 0, 'kind': c['kind'], 'e': c['e']}
+    case = {'id': c.get('id', 0), 'kind': c['kind'], 'e': c['e']}
+    if 'src' in c:
+        case.update(via='simp', src=c['src'])
     if c['kind'] == 'mut':
         case.update(f=c['mut']['f'], g=c['mut']['g'])
-    if c['kind'] == 'map':
+    if c['kind'] == 'map' and 'src' not in c:
         case['map'] = c['map']['map']
     irlib._init_worker(False)
     rec = _observe(case)
